@@ -218,6 +218,15 @@ def attach_scc_subdiagram(
 
     attach_at_space = sd.node_data(attach_at)["space"]
 
+    # The motif-avoidant attractor checks call the solver and can fail. Do all
+    # of them before `sd` is modified, so that a failure cannot leave behind
+    # nodes that are marked as expanded but do not have their successors yet.
+    scc_nodes_without_maa: set[int] = set()
+    if check_maa:
+        for scc_node_id in scc_sd.node_ids():
+            if len(scc_sd.node_attractor_candidates(scc_node_id, compute=True)) == 0:
+                scc_nodes_without_maa.add(scc_node_id)
+
     # First, copy every node from `scc_sd`` into main `sd`.
     min_traps: list[int] = []
     for scc_node_id in scc_sd.node_ids():
@@ -244,10 +253,9 @@ def attach_scc_subdiagram(
                 main_node_data["attractor_sets"] = None
             main_node_data["expanded"] = True
 
-        if check_maa:
-            if len(scc_sd.node_attractor_candidates(scc_node_id, compute=True)) == 0:
-                sd.node_data(main_node_id)["attractor_seeds"] = []
-                sd.node_data(main_node_id)["attractor_sets"] = []
+        if scc_node_id in scc_nodes_without_maa:
+            sd.node_data(main_node_id)["attractor_seeds"] = []
+            sd.node_data(main_node_id)["attractor_sets"] = []
 
     assert len(node_id_map) == len(scc_sd)
 
@@ -275,9 +283,8 @@ def attach_scc_subdiagram(
         attach_at_data["attractor_sets"] = None
     attach_at_data["expanded"] = True
     # Finally, if we are checking for MAAs, we can do that for the root too:
-    if check_maa:
-        if len(scc_sd.node_attractor_candidates(scc_sd.root(), compute=True)) == 0:
-            sd.node_data(attach_at)["attractor_seeds"] = []
-            sd.node_data(attach_at)["attractor_sets"] = []
+    if scc_sd.root() in scc_nodes_without_maa:
+        sd.node_data(attach_at)["attractor_seeds"] = []
+        sd.node_data(attach_at)["attractor_sets"] = []
 
     return min_traps
